@@ -214,6 +214,7 @@ def run_case(case):
         out.label("default-fallback-updater")
         variants.append(("after-earlier-seed-updates", ["plain", "history"]))
     variants.append(("after-abandoned-replication-and-cleanup", ["plain", "abandon"]))
+    variants.append(("paused-by-time-changed-listener", ["pause-tc", 1 + case["k"] % 4]))
     for name, drive in variants:
         c_ = case
         if drive[-1] == "history":
